@@ -487,6 +487,8 @@ def build(m: GModel):
     def conv(a):
         op = a[0]
         if op == "num":
+            if len(a) > 2 and a[2] == "float":    # written as a float literal even when its value is integral (1e18, 100.0)
+                return float(a[1])
             if len(a) > 2:                       # a symbolic constant: sympy keeps it as pi / sqrt(2) / E in the expression
                 import sympy as _sp
                 return {"pi": _sp.pi, "sqrt2": _sp.sqrt(2), "E": _sp.E}[a[2]]
@@ -578,4 +580,10 @@ def corpus():
     C.append(GModel("DAE", [("x", [0.7, 1.3, 0.2], None)],
                     [("G", "ts_index", dict(value=[1.0, 0.5, 2.0], times=[0.0, 1.0, 2.0], series=[0.5, 1.5, 3.0], index=[1]))],
                     [("f0", "ode", ("sub", ("par", 0, ("w",)), ("mul", ("var", 0, ("w",)), ("par", 0, ("i", 0)))), (0, ("w",)))]))
+    # numeric constants that need all 17 significant digits (0.1 + 0.2, 1/3) as thresholds of piecewise functions, evaluated exactly on
+    # the threshold and one ulp / the 15-digit rounding away from it: the generated code has to carry the constant the user wrote
+    c17, c16 = 0.1 + 0.2, 1.0 / 3.0
+    C.append(GModel("AE", [("x", [c17, 0.3, 0.30000000000000010], None), ("w", [c16, 0.333333333333333, 0.5], None)], [],
+                    [("e0", "alg", ("add", ("heav", ("sub", ("var", 0, ("w",)), ("num", c17))), ("var", 1, ("w",))), None),
+                     ("e1", "alg", ("add", ("sign", ("sub", ("var", 1, ("w",)), ("num", c16))), ("mul", ("num", 2.0), ("var", 0, ("w",)))), None)]))
     return C
